@@ -129,7 +129,7 @@ def lib_text(m):
 SITE_W = {("F", "b"): 1, ("A", "b"): 2, ("B", "b"): 3, ("C", "b"): 4, ("C", "a"): 5, ("B", "a"): 6, ("A", "a"): 7, ("F", "a"): 8}
 
 
-def build(choice, use_scope, dotted, shadow_import=None, name="X"):
+def build(choice, use_scope, dotted, shadow_import=None, name="X", early=None):
     """choice: {scope letter: None|'b'|'a'} declaration of `name` before/after the use path.
     use_scope: 'C' | 'B' | 'A' | 'D' (a top-level message after A).
     shadow_import: (scope letter, width) -> a nested message named `lib` containing enum X."""
@@ -150,7 +150,14 @@ def build(choice, use_scope, dotted, shadow_import=None, name="X"):
             sc.add(("msg", m))
 
     decl("F", "b", f)
-    shadow("F", f) if False else None
+    # an EARLY use of the same name at the very beginning of scope `early` (before that scope's own declaration):
+    # it must see the outer definition, and the later use must see the inner one (lookups must not be remembered)
+    if early == "A":
+        A.add(("use", dotted, "f0", 9))
+    if early == "B":
+        B.add(("use", dotted, "f0", 9))
+    if early == "C":
+        C.add(("use", dotted, "f0", 9))
     decl("A", "b", A)
     shadow("A", A)
     decl("B", "b", B)
@@ -181,10 +188,10 @@ def build(choice, use_scope, dotted, shadow_import=None, name="X"):
     return f
 
 
-def find_use(f):
+def find_use(f, fname="f"):
     def rec(s):
         for k, it in enumerate(s.items):
-            if it[0] == "use" and it[2] == "f":
+            if it[0] == "use" and it[2] == fname:
                 return s, k
             if it[0] == "msg":
                 r = rec(it[1])
@@ -219,6 +226,17 @@ def cases(tier):
             for dotted in ("lib.X", "lib.A.X"):
                 for combo in ((None,) * 4, ("b", None, None, None)):
                     out.append(dict(kind="shadow-import", choice=dict(zip("FABC", combo)), use=use, dotted=dotted, shadow=(letter, 11 if letter == "A" else 12)))
+    # (3b) two uses of one name around a declaration in the same scope
+    for early in "ABC":
+        for use in "CBAD":
+            for outer in ("F", "A"):
+                if outer == early:
+                    continue
+                for dotted in ("X", "B.X", "A.X") if tier == "thorough" else ("X",):
+                    choice = dict(zip("FABC", (None,) * 4))
+                    choice[outer] = "b"
+                    choice[early] = "b"
+                    out.append(dict(kind="two-uses", choice=choice, use=use, dotted=dotted, shadow=None, early=early))
     # (4) constants as capacities
     for use in "CBAD":
         for dotted in ("K", "lib.K", "al.K", "KL", "lib.KX"):
@@ -231,7 +249,7 @@ def materialise(case):
         f = build({}, case["use"], "bool[%s]" % case["dotted"])
         f.add(("const", "KL", 9))  # declared after every use
     else:
-        f = build(case["choice"], case["use"], case["dotted"], case["shadow"])
+        f = build(case["choice"], case["use"], case["dotted"], case["shadow"], early=case.get("early"))
     text = "proto t\n\n" + "\n".join(render(f)) + "\n"
     return f, text
 
@@ -325,6 +343,17 @@ def run_unit(unit):
             if got != exp_val:
                 viol("resolved_to_wrong_definition", "field gets width/value %s, the innermost visible earlier definition has %s" % (got, exp_val))
                 continue
+            if case.get("early"):
+                sc0, idx0 = find_use(f, "f0")
+                exp0, corner0 = resolve(sc0, idx0, case["dotted"])
+                names0 = []
+                s3 = sc0
+                while s3 is not None and s3.kind != "file":
+                    names0.insert(0, s3.name)
+                    s3 = s3.parent
+                fld0 = [x for x in proto.get_member(*names0).fields() if x.name == "f0"][0]
+                if exp0 is not None and exp0[0] == "enum" and fld0.type.nbits() != exp0[2]:
+                    viol("early_use_resolved_to_wrong_definition", "early use gets width %s, expected %s" % (fld0.type.nbits(), exp0[2]))
             if k % 8 == 0 and case["kind"] != "const":
                 # the resolved definition is also the one the encoded layout gets
                 from ..pyback import render_strings
@@ -351,7 +380,7 @@ def main(pid, tier):
     acc.merge(run_units(units(tier), run_unit, maxtasks=20))
     c = acc.counters
     g = []
-    for need in ("kind:simple", "kind:dotted", "kind:shadow-import", "kind:const", "shadowing"):
+    for need in ("kind:simple", "kind:dotted", "kind:shadow-import", "kind:const", "kind:two-uses", "shadowing"):
         if acc.classes.get(need, 0) < 1:
             g.append("no case of " + need)
     cov = dict(states=c["states"], transitions=c["transitions"], traces_validated_against_impl=c["traces"], evaluations=c["evaluations"],
